@@ -26,3 +26,6 @@ pub use connection::verif_hooks as verif_streams;
 #[cfg(scylla_verif)]
 #[allow(missing_docs)]
 pub use connection::verif_keyspace_hooks as verif_keyspace;
+
+#[cfg(scylla_verif)]
+pub(crate) use connection::verif_idle_connection_hooks;
